@@ -87,7 +87,7 @@ def _pairwise_ok(rs):
 
 def classify_entry(ev, tx_id, x, recs, p, ids_idx):
     """finding id for a header entry that is not a witness.  The smallest repair (REMOVE some named records,
-    ADD at most two others) that makes the entry a witness is looked for; the finding is decided by what
+    ADD at most three others) that makes the entry a witness is looked for; the finding is decided by what
     had to be added / removed:
       D14 / D14b            the entry IS a witness under the relaxed reading of exception-suppressed /
                             look-behind-dependent sites (the peptide itself stems from those defects)
@@ -106,7 +106,7 @@ def classify_entry(ev, tx_id, x, recs, p, ids_idx):
         return CK.F_PEPSIN
     others = [i for i in range(len(recs)) if i not in ids_idx]
     subsets = [list(cb) for n in range(len(ids_idx), 0, -1) for cb in itertools.combinations(ids_idx, n)]
-    adds = [[]] + [list(cb) for n in (1, 2) for cb in itertools.combinations(others, n)]
+    adds = [[]] + [list(cb) for n in (1, 2, 3) for cb in itertools.combinations(others, n)]
     cands = []
     for A in adds:
         for S in subsets:
@@ -207,6 +207,9 @@ def judge(evs, violations, stats):
     for ev in evs:
         st = ev.case.get('stream', '?').split(':')[0]
         stats['runs:' + st] += 1
+        if ev.exc and CK.is_end_inclusion_crash(ev):
+            stats['end_inclusion_crash'] += 1        # nothing is emitted: C01 owns the finding
+            continue
         if ev.exc:
             violations.append({'what': 'callVariant aborted with %s (%s)' % (ev.exc['__exc__'], ev.exc.get('msg', '')[:120]),
                                'replay_obj': CK.replay_obj(ev, 'crash'), 'no_input': False})
